@@ -220,10 +220,177 @@ Section R.
     set (st2 := rset_dep (adv st p) d').
     destruct (struct_loop_fixed l HF f st2 (r_pos st + p) w 0 [] b A) as (st' & Hrun & Hp' & Hl'); subst st2; cbn [rset_dep adv r_e r_dep r_len r_pos r_pos0 r_rest]; try assumption; try lia.
     - rewrite Hs', Ha', Ht'. assumption.
-    - rewrite <- N.add_assoc. cbn [adv r_pos0 r_pos] in Hal2. rewrite <- N.add_assoc in Hal2. assumption.
     - intros x Hx. apply pow2_div; [apply galigns_pow2|apply galign_pow2|]. apply galigns_ge. subst sigs. now apply in_map.
     - exists t. split; [exact Ht|exact Hbound].
-    - cbn [rset_dep adv r_len] in Hrun. rewrite Hrun. cbn [bind frev rev_append app]. exists st'. split; [reflexivity|].
+    - cbn [rset_dep adv r_len] in Hrun. unfold gde in Hrun. change (map gsig l) with sigs in Hrun.
+      rewrite Hrun. cbn [bind frev rev_append app]. exists st'. split; [reflexivity|].
       cbn [rset_dep adv r_pos] in Hp'. rewrite Hp'. rewrite len_app, len_pad. fold p data. lia.
+  Qed.
+
+  Theorem rt_fixed_all : forall v, rt_fixed v.
+  Proof.
+    induction v using gval_ind';
+      try (intros fuel st bb Hfuel He Hw Hp Hfx; cbn [gsig gis_fixed] in Hfx; discriminate);
+      first [apply rt_fixed_u8 | apply rt_fixed_i16 | apply rt_fixed_u16 | apply rt_fixed_i32 | apply rt_fixed_u32
+            | apply rt_fixed_i64 | apply rt_fixed_u64 | apply rt_fixed_f64 | now apply rt_fixed_struct | idtac].
+    (* what is left: descriptors, excluded by [pre] *)
+    all: intros fuel st bb Hfuel He Hw Hp; unfold pre in Hp; cbn [all_nodes] in Hp; unfold node_pre in Hp;
+      rewrite andb_true_r in Hp; apply andb_true_iff in Hp as [_ Hp]; discriminate.
+  Qed.
+
+  (* ---------- (A) any value of the fragment is read back from a window that is exactly its (padded) encoding ---------- *)
+  Definition node_rt (v : gval) : bool :=
+    match v with
+    | GDict _ _ _ => false
+    | GVariant x => len (show (gsig x)) <=? stack_limit
+    | _ => true
+    end.
+  Definition rtok (v : gval) : bool := all_nodes node_rt v.
+
+  Definition rt (v : gval) : Prop := forall fuel st,
+    (gheight v <= fuel)%nat -> r_e st = e -> gwf v = true -> pre e v = true -> rtok v = true ->
+    r_sig st = gsig v -> dep_ok (r_dep st) -> gfits (r_dep st) v -> r_len st < big ->
+    holds st (pad (r_pos0 st + r_pos st) (galign (gsig v)) ++ gvb e v) ->
+    exists st', gde fuel st = Ok (v, st') /\ r_pos st' = r_len st.
+
+  Lemma rt_of_fixed v : gis_fixed (gsig v) = true -> rt v.
+  Proof.
+    intros Hfx fuel st Hfuel He Hw Hp Hr Hs Hd Hf Hl Hst.
+    destruct (rt_fixed_all v fuel st [] Hfuel He Hw Hp Hfx Hs Hd Hf Hl) as (st' & H1 & H2).
+    { rewrite app_nil_r. now apply holds_starts. }
+    exists st'. split; [assumption|]. destruct Hst as (t & _ & Hb). lia.
+  Qed.
+
+  Lemma strip_nul_app s : strip_nul (s ++ [x00]) = s.
+  Proof.
+    unfold strip_nul. destruct (s ++ [x00]) eqn:Hl; [destruct s; discriminate|]. rewrite <- Hl.
+    rewrite last_last. cbn. apply removelast_last.
+  Qed.
+
+  Lemma str_run st s : r_sig st = SStr \/ r_sig st = SSig \/ r_sig st = SObjPath ->
+    nul_free s = true -> utf8_valid s = true -> holds st (s ++ [x00]) ->
+    gde_str st = Ok (s, adv st (r_len st - r_pos st)).
+  Proof.
+    intros Hs Hn Hu (t & Ht & Hb). unfold gde_str.
+    assert (Hlen : r_len st - r_pos st = len (s ++ [x00])) by lia.
+    assert (Hcore : (if r_len st <? r_pos st then Err EBounds
+                     else let n := r_len st - r_pos st in let slice := takeN n (r_rest st) in let st' := adv st n in
+                          let s0 := strip_nul slice in
+                          if negb (nul_free s0) then Err EValue else if utf8_valid s0 then Ok (s0, st') else Err EUtf8)
+                    = Ok (s, adv st (r_len st - r_pos st))).
+    { destruct (N.ltb_spec (r_len st) (r_pos st)); [lia|]. cbv zeta. rewrite Hlen, Ht, takeN_app_len, strip_nul_app, Hn, Hu. reflexivity. }
+    destruct Hs as [Hs|[Hs|Hs]]; rewrite Hs; exact Hcore.
+  Qed.
+
+  Lemma rt_str s : rt (GStr s).
+  Proof.
+    intros fuel st Hfuel He Hw Hp Hr Hs Hd Hf Hl Hst. destruct fuel as [|f]; [cbn in Hfuel; lia|].
+    cbn [gsig galign gvb gwf] in *. rewrite pad_1 in Hst. cbn [app] in Hst.
+    unfold gstr_ok in Hw. apply andb_true_iff in Hw as [Hn Hu].
+    unfold gde. cbn [gde_gen]. rewrite Hs. rewrite (str_run st s) by (tauto || assumption). cbn [bind gstr_value].
+    eexists. split; [reflexivity|]. destruct Hst as (t & _ & Hb). cbn [adv r_pos]. lia.
+  Qed.
+  Lemma rt_path s : rt (GPath s).
+  Proof.
+    intros fuel st Hfuel He Hw Hp Hr Hs Hd Hf Hl Hst. destruct fuel as [|f]; [cbn in Hfuel; lia|].
+    cbn [gsig galign gvb gwf] in *. rewrite pad_1 in Hst. cbn [app] in Hst.
+    pose proof (DeCompleteFacts.path_ascii s Hw) as Ha.
+    unfold gde. cbn [gde_gen]. rewrite Hs.
+    rewrite (str_run st s); try assumption; [|tauto|now apply DeCompleteFacts.ascii_nul_free|now apply DeCompleteFacts.ascii_utf8].
+    cbn [bind gstr_value]. rewrite Hw. cbn [bind].
+    eexists. split; [reflexivity|]. destruct Hst as (t & _ & Hb). cbn [adv r_pos]. lia.
+  Qed.
+
+  Lemma parse_sigval g : gsigval_ok g = true -> parse_sig true (show g) = Some g.
+  Proof.
+    unfold gsigval_ok. destruct g; try (intros H; now apply parse_show_gv); try reflexivity.
+    intros H. apply andb_true_iff in H as [H1 H2]. apply parse_show_gv. cbn [gsingle_ok].
+    destruct fs; [discriminate|]. cbn [andb]. exact H1.
+  Qed.
+  Lemma rt_sigv g np : rt (GSigv g np).
+  Proof.
+    intros fuel st Hfuel He Hw Hp Hr Hs Hd Hf Hl Hst. destruct fuel as [|f]; [cbn in Hfuel; lia|].
+    unfold pre in Hp. cbn [all_nodes] in Hp. unfold node_pre in Hp. rewrite andb_true_r in Hp.
+    apply andb_true_iff in Hp as [_ Hp]. destruct np; [discriminate|].
+    cbn [gsig galign gvb gwf] in *. rewrite pad_1 in Hst. cbn [app] in Hst.
+    apply andb_true_iff in Hw as [Hw _].
+    pose proof (DeCompleteFacts.ascii_show g) as Ha.
+    unfold gde. cbn [gde_gen]. rewrite Hs.
+    rewrite (str_run st (show g)); try assumption; [|tauto|now apply DeCompleteFacts.ascii_nul_free|now apply DeCompleteFacts.ascii_utf8].
+    cbn [bind gstr_value]. rewrite (parse_sigval g Hw). rewrite DeCompleteFacts.lbeq_refl. cbn [bind negb].
+    eexists. split; [reflexivity|]. destruct Hst as (t & _ & Hb). cbn [adv r_pos]. lia.
+  Qed.
+
+  Lemma holds_nil st : holds st [] -> r_pos st = r_len st.
+  Proof. intros (t & _ & H). cbn in H. lia. Qed.
+
+  Lemma rtok_child_maybe cs x : rtok (GMaybe cs (Some x)) = true -> rtok x = true.
+  Proof. unfold rtok. cbn [all_nodes node_rt andb]. tauto. Qed.
+
+  Lemma rt_nothing cs : rt (GMaybe cs None).
+  Proof.
+    intros fuel st Hfuel He Hw Hp Hr Hs Hd Hf Hl Hst. destruct fuel as [|f]; [cbn in Hfuel; lia|].
+    pose proof (pre_align e _ Hp Hw) as Hal. cbn [gsig galign gvb] in *.
+    unfold gde. cbn [gde_gen]. rewrite Hs, Hal.
+    rewrite (gparse_padding_starts st (galign cs) []) by (now apply holds_starts). cbn [bind]. cbv zeta.
+    apply holds_after_pad in Hst. apply holds_nil in Hst. rewrite Hst. change (r_len (adv st _)) with (r_len st).
+    rewrite N.eqb_refl. eexists. split; [reflexivity|]. exact Hst.
+  Qed.
+
+  Lemma rt_just cs x : rt x -> rt (GMaybe cs (Some x)).
+  Proof.
+    intros IH fuel st Hfuel He Hw Hp Hr Hs Hd Hf Hl Hst. destruct fuel as [|f]; [cbn in Hfuel; lia|].
+    cbn [gheight] in Hfuel.
+    pose proof (pre_align e _ Hp Hw) as Hal. cbn [gsig galign gvb] in *.
+    cbn [gwf] in Hw. apply andb_true_iff in Hw as [Hw Hsx]. apply andb_true_iff in Hw as [Hcs Hwx]. apply sig_eqb_eq in Hsx.
+    unfold pre in Hp. cbn [all_nodes] in Hp. apply andb_true_iff in Hp as [Hn Hpx]. fold (pre e x) in Hpx.
+    apply rtok_child_maybe in Hr.
+    unfold gfits in Hf. cbn [gdepth_ok] in Hf. apply andb_true_iff in Hf as [Hf1 Hf2]. apply N.leb_le in Hf1.
+    destruct (inc_maybe_good _ Hd Hf1) as (d' & Hinc & Hdec & Hd' & Hs' & Ha' & Ht').
+    set (p := padn (r_pos0 st + r_pos st) (galign cs)).
+    unfold gde. cbn [gde_gen]. rewrite Hs, Hal.
+    rewrite (gparse_padding_starts st (galign cs) _ (holds_starts _ _ Hst)). cbn [bind]. cbv zeta. fold p.
+    apply holds_after_pad in Hst. fold p in Hst.
+    change fixed_sized with gis_fixed.
+    destruct Hst as (t & Ht & Hb). cbn [adv r_pos r_rest r_len] in *.
+    assert (Hal2 : (r_pos0 st + (r_pos st + p)) mod galign (gsig x) = 0).
+    { rewrite Hsx, N.add_assoc. subst p. apply padn_after, galign_nz. }
+    destruct (gis_fixed cs) eqn:Hfx.
+    - (* fixed-size child: the whole rest of the slice *)
+      rewrite app_nil_r in Ht, Hb.
+      assert (Hne : 1 <= len (gvb e x)) by (apply fixed_nonempty; [assumption|now rewrite Hsx]).
+      destruct (N.eqb_spec (r_pos st + p) (r_len st)); [lia|]. cbn [bind].
+      destruct (sub_starts (adv st p) (r_len st) cs (r_dep st) (gvb e x)) as (sub & Hsub & Hss & Hs0 & Hsl & Hsp0 & Hse & Hssig & Hsdep & _);
+        cbn [adv r_pos r_len r_rest]; try lia.
+      { exists t. exact Ht. }
+      change (r_dep (adv st p)) with (r_dep st). cbn [adv r_pos r_len r_pos0 r_e] in *. rewrite Hsub. cbn [bind]. rewrite Hinc. cbn [bind].
+      destruct (IH f (rset_dep sub d')) as (sub' & Hdec1 & Hpos1); cbn [rset_dep r_e r_sig r_dep r_len r_pos r_pos0 r_rest]; try assumption; try lia.
+      + congruence.
+      + congruence.
+      + unfold gfits. rewrite Hs', Ha', Ht'. assumption.
+      + rewrite Hsp0, Hs0, N.add_0_r. rewrite (pad_aligned _ _ (galign_nz _) Hal2). cbn [app].
+        destruct Hss as (t2 & Ht2 & Hb2). exists t2. cbn [rset_dep r_pos r_len r_rest]. split; [assumption|]. rewrite Hs0, Hsl. lia.
+      + unfold gde in Hdec1. rewrite Hdec1. cbn [bind]. eexists. split; [reflexivity|].
+        cbn [adv r_pos]. cbn [rset_dep r_len] in Hpos1. lia.
+    - (* variable-size child: followed by one zero byte *)
+      rewrite len_app in Hb. change (len [x00]) with 1 in Hb.
+      destruct (N.eqb_spec (r_pos st + p) (r_len st)); [lia|].
+      destruct (N.eqb_spec (r_len st) 0); [lia|]. cbn [bind].
+      destruct (sub_starts (adv st p) (r_len st - 1) cs (r_dep st) (gvb e x)) as (sub & Hsub & Hss & Hs0 & Hsl & Hsp0 & Hse & Hssig & Hsdep & _);
+        cbn [adv r_pos r_len r_rest]; try lia.
+      { exists ([x00] ++ t). rewrite Ht. now rewrite <- app_assoc. }
+      change (r_dep (adv st p)) with (r_dep st). cbn [adv r_pos r_len r_pos0 r_e] in *. rewrite Hsub. cbn [bind]. rewrite Hinc. cbn [bind].
+      destruct (IH f (rset_dep sub d')) as (sub' & Hdec1 & Hpos1); cbn [rset_dep r_e r_sig r_dep r_len r_pos r_pos0 r_rest]; try assumption; try lia.
+      + congruence.
+      + congruence.
+      + unfold gfits. rewrite Hs', Ha', Ht'. assumption.
+      + rewrite Hsp0, Hs0, N.add_0_r. rewrite (pad_aligned _ _ (galign_nz _) Hal2). cbn [app].
+        destruct Hss as (t2 & Ht2 & Hb2). exists t2. cbn [rset_dep r_pos r_len r_rest]. split; [assumption|]. rewrite Hs0, Hsl. lia.
+      + unfold gde in Hdec1. rewrite Hdec1. cbn [bind]. cbn [rset_dep r_len] in Hpos1. rewrite Hpos1, Hsl.
+        cbn [adv r_pos r_len r_rest].
+        destruct (N.leb_spec (r_len st) (r_pos st + p + (r_len st - 1 - (r_pos st + p)))); [lia|].
+        rewrite Ht. replace (r_len st - 1 - (r_pos st + p)) with (len (gvb e x)) by lia.
+        rewrite <- app_assoc, dropN_app_len. cbn [app is_zero bn].
+        eexists. split; [reflexivity|]. cbn [adv r_pos]. lia.
   Qed.
 End R.
